@@ -696,7 +696,7 @@ class Array(metaclass=MetaArray):
             arr = self._buffer.to_nparray(
                 self._offset + self._data_offset, self._itemtype._dtype, cshape
             ).transpose([self._order.index(ii) for ii in range(len(shape))])
-            assert arr.strides == self._strides
+            assert arr.size == 0 or arr.strides == self._strides
             return arr
         else:
             raise NotImplementedError
